@@ -830,6 +830,17 @@ where
 
         let idle_flush_interval_ms = arc_self.idle_flush_interval_ms;
         let node_id = arc_self.node_id;
+        // Verification hook: run the IO task on the caller's runtime (deterministic scheduling
+        // under a paused clock) instead of a dedicated OS thread.
+        #[cfg(feature = "__verif")]
+        if crate::verif_hooks::io_task_on_caller_runtime() {
+            tokio::spawn(Self::batch_processor(
+                weak_self,
+                receiver,
+                idle_flush_interval_ms,
+            ));
+            return arc_self;
+        }
         let io_handle = std::thread::Builder::new()
             .name(format!("raft-io-{}", node_id))
             .spawn(move || {
